@@ -163,9 +163,19 @@ def check_marking(res, pm, kind, eta, theta, glue, X, hist, exact=True):
         vals = [F(v) for v in eta] if exact else list(eta)
         k, vk = shortest_prefix(vals, th2)
         marked = [idx[id(e)] for e in calls[0] if id(e) in idx]
+        sure = [i for i in range(len(vals)) if vals[i] > vk]
+        tied = [i for i in range(len(vals)) if vals[i] == vk]
+        mm = re.search(r'Marked (\d+) / (\d+) elements', out)
+        if k - len(sure) == len(tied):
+            # the marked set is determined by the values alone: how the code walks through it (order, elements it finds
+            # refined already by the closure of an earlier one) is its own business - the resulting mesh decides
+            marked = sure + tied
+            ok_count = int(mm.group(1)) == k if mm else True
+            ok_ties = True
+        else:                 # a tie is broken by the (stable) sort: accept the choice the code made
+            ok_count = (int(mm.group(1)) if mm else len(marked)) == k
+            ok_ties = all(vals[i] >= vk for i in marked) and all(i in marked for i in sure)
         mt, ms = marked, marked
-        ok_count = len(marked) == k
-        ok_ties = all(vals[i] >= vk for i in marked) and all(i in marked for i in range(len(vals)) if vals[i] > vk)
         nontrivial = len(set(vals)) < len(vals)
     else:
         vt = [F(v) for v in eta[:, 0]] if exact else list(eta[:, 0])
@@ -191,9 +201,11 @@ def check_marking(res, pm, kind, eta, theta, glue, X, hist, exact=True):
             ms = sure_s + [i for a, i in tied if a == 's']
         else:                     # a tie is broken by the (stable) sort: accept the choice the code made
             mt, ms = mt_calls, ms_calls
-        ok_count = (n_time + n_space == k) if n_space >= 0 else (len(mt_calls) + len(ms_calls) == k)
+        ok_count = (n_time + n_space == k) if (m1 and n_space >= 0) else (len(mt_calls) + len(ms_calls) == k)
         ok_ties = all(vt[i] >= vk for i in mt_calls) and all(vs[i] >= vk for i in ms_calls) and \
-            all(i in mt_calls for i in sure_t)
+            (n_tied == len(tied) or all(i in mt_calls for i in sure_t))
+        if n_tied == len(tied) and not (m1 and m2):
+            ok_count = True       # (no printed counts to go by: the resulting mesh decides)
         nontrivial = True
     if not ok_count:
         res.violation('C06:prefix-not-shortest:' + kind, dict(marked=len(mt) if kind == 'diso' else len(mt) + len(ms),
@@ -252,6 +264,41 @@ def search(res, tier, boost=False):
                     res.bump('near_miss_indicator_vectors')
             ops.append((kind, eta, theta))
             hist = dict(glue=glue, X=[str(x) for x in X], T=[str(t) for t in T], ops=[op_json(o) for o in ops])
+            if not check_marking(res, pm, kind, eta, theta, glue, X, hist):
+                break
+    # adaptive loops: several marking calls in a row (no other operation in between) on user time grids with slabs of
+    # different lengths - the levels of elements of different slabs then say nothing about their sizes; indicators are
+    # permutations (no ties) or concentrated on both sides of a slab boundary (a layer in time)
+    loop_grids = [[F(0), F(1), F(5)], [F(0), F(1), F(3)], [F(0), F(1, 4), F(1)], [F(0), F(2), F(3)], [F(0), F(1), F(2), F(6)]]
+    for h in range((8 if tier == 'quick' else 60) * (3 if boost else 1)):
+        T = loop_grids[h % len(loop_grids)]
+        glue, X = rng.choice([(1, [F(0), F(1), F(2), F(3), F(4)]), (1, [F(0), F(4)]), (0, [F(0), F(1)])])
+        pm = PyMesh.create(glue, X, T)
+        ops = []
+        layer = h % 3 == 2
+        for k in range(5):
+            leaves = list(pm.mesh.leaf_elements)
+            nl = len(leaves)
+            if nl > 220:
+                break
+            kind = 'diso' if h % 4 != 3 else 'daniso'
+            perm = list(range(1, (2 * nl if kind == 'daniso' else nl) + 1))
+            rng.shuffle(perm)
+            if layer and k >= 1:
+                tb = T[1]
+                xs = rng.choice(X[:-1]) + (X[1] - X[0]) * F(rng.randint(0, 7), 8)
+                for i, e in enumerate(leaves):
+                    t0, t1 = e.time_interval
+                    x0, x1 = e.space_interval
+                    if x0 <= xs < x1 and (t0 == tb or t1 == tb):
+                        perm[i] += 1000 if t0 == tb else 900
+            eta = np.array(perm, dtype=float)
+            if kind == 'daniso':
+                eta = eta.reshape(2, nl).T.copy()
+            theta = float(rng.choice([F(1, 2), F(3, 4), F(7, 8), F(15, 16)]))
+            ops.append((kind, eta, theta))
+            hist = dict(glue=glue, X=[str(x) for x in X], T=[str(t) for t in T], ops=[op_json(o) for o in ops],
+                        stream='adaptive loop: marking calls only')
             if not check_marking(res, pm, kind, eta, theta, glue, X, hist):
                 break
     # float stream: generic float indicators, theta in (0,1) incl. values close to 1 -> the call must not fail
